@@ -48,6 +48,10 @@ func oracleServer() {
 			m := hmac.New(sha512.New, arg(1))
 			m.Write(arg(2))
 			out = m.Sum(nil)
+		case "dsha256":
+			h1 := sha256.Sum256(arg(1))
+			h2 := sha256.Sum256(h1[:])
+			out = h2[:]
 		case "hash160":
 			h := sha256.Sum256(arg(1))
 			r := ripemd160.New()
